@@ -97,7 +97,8 @@ def check(ctx, filt):
                'first token byte captured into bits 0..7 of the 11-bit token register: %s' % [q.fmt(a) for a in c1])
         tok = c1[0].lhs.canon() if c1 else 'token_data'
         c2 = [a for a in ir.assigns if a.state == ce.state and q.atoms(a) == q.atoms(ce)]
-        ok2 = len(c2) == 1 and c2[0].lhs.canon() == tok + '[8:11]' and c2[0].rhs.canon() == 'self.utmi.rx_data'
+        ok2 = len(c2) == 1 and c2[0].lhs.canon() == tok + '[8:11]' and \
+            c2[0].rhs.canon() in ('self.utmi.rx_data', 'self.utmi.rx_data[0:3]')      # the 3-bit target keeps bits 0..2 either way
         ctx.ob('C01.field-capture', 'USBTokenDetector.byte2' + tag, ok2, c2[0].loc if c2 else None,
                'low three bits of the second byte captured into bits 8..10: %s' % [q.fmt(a) for a in c2])
     else:
